@@ -5,7 +5,7 @@ of live context-manager objects with their saved value, ghost `pre`), with the p
 Restoration / SavedIsPrevious / CheckIsPure / GateLaw / EntrySets model-checked by TLC.
 Binding (spec -> code): TLC enumerates every complete history (all with-blocks closed) of
 enable()/disable() calls, `with enable..():`/`with disable..():` blocks left normally or by an
-exception (nesting <= 3) and check(program) steps for 7 probe programs (list literal, list
+exception (nesting <= 3) and check(program) steps for 8 probe programs (list literal, list
 comprehension, list type, function tensor, capturing closure, modifier block, ungated control),
 each step annotated with the spec's expected flag and accept/reject + error title.  Every
 history is replayed on the real module with real `with` statements and real `defn.check()`;
@@ -19,7 +19,7 @@ import shutil
 import lib
 
 ALL_FIRST = ["call:enable", "call:disable", "enter:enable", "enter:disable", "check:list_lit", "check:list_comp",
-             "check:list_type", "check:tensor", "check:closure", "check:modifier", "check:plain"]
+             "check:list_type", "check:tensor", "check:tensor_syn", "check:closure", "check:modifier", "check:plain"]
 CHUNK = 400
 
 
@@ -105,11 +105,12 @@ def stats(hists):
 
 
 def run(ctx):
-    import eng_gate
     import eng_tree
 
+    eng_tree.freeze_tree(ctx)
+    import eng_gate
+
     ctx.level = "model_checking"
-    tree0 = eng_tree.tree_state()
     # 0. model Init: the gate is closed in a fresh interpreter
     d = eng_gate.default_flag_fresh_process()
     if d != "False":
@@ -156,7 +157,6 @@ def run(ctx):
     consume(sim)
     ctx.log(f"simulation: {len(hists)} emitted, {len(uniq)} distinct, {len(sim)} replayed")
 
-    eng_tree.require_unchanged(tree0)
     # vacuity: every probe program must have been checked under both flag values, exits after which the flag differs
     # from the value inside the block must exist, so must exceptional exits and depth-3 nesting
     want = {(p, f) for p in eng_gate.PROGRAMS for f in "TF"}
@@ -182,8 +182,8 @@ def run(ctx):
                 "real module; non-trivial = history with with-blocks nested >= 2",
         "samples": samples,
         "exhaustive": True,
-        "bounds": ("all histories of <= 4 steps with <= 1 check (+ closing exits), nesting <= 3, 7 probe programs" if ctx.quick else
-                   "all histories of <= 5 steps with <= 3 checks (+ closing exits), nesting <= 3, 7 probe programs") +
+        "bounds": ("all histories of <= 4 steps with <= 1 check (+ closing exits), nesting <= 3, 8 probe programs" if ctx.quick else
+                   "all histories of <= 5 steps with <= 3 checks (+ closing exits), nesting <= 3, 8 probe programs") +
                   f"; plus {len(sim)} random histories of 16 steps (TLC simulation, seed {ctx.seed + 1})",
         "history_stats": total,
         "tlc_action_coverage": {k: list(v) for k, v in cov.items()},
@@ -195,6 +195,9 @@ def run(ctx):
 
 
 def replay(ctx, data):
+    import eng_tree
+
+    eng_tree.freeze_tree(ctx)
     import eng_gate
 
     h = data["replay"]["history"]
@@ -206,6 +209,9 @@ def replay(ctx, data):
 
 
 def selftest(ctx):
+    import eng_tree
+
+    eng_tree.freeze_tree(ctx)
     import eng_gate
     import guppylang_internals.experimental as ex
 
